@@ -93,6 +93,9 @@ pub fn gen_event(
     src: &str,
     path: &Value,
 ) -> (Value, Vec<BoardState>) {
+    // the check flags are asked BEFORE the successors are generated, as the search does (horizon test, null-move guard):
+    // whatever the board object remembers about them is then in place when its successors are cloned from it
+    let chk = [is_check(board, PieceColor::White), is_check(board, PieceColor::Black)];
     let moves = generate_moves(board, mode, &t.hasher);
     let mut ms = Vec::new();
     for s in &moves {
@@ -116,7 +119,7 @@ pub fn gen_event(
         "mode": if mode == MoveGenerationMode::AllMoves { "all" } else { "caps" },
         "src": src,
         "pos": t.state(board),
-        "chk": [is_check(board, PieceColor::White), is_check(board, PieceColor::Black)],
+        "chk": chk,
         "moves": ms,
         "par": par,
         "via": via,
